@@ -3,6 +3,8 @@ import Mitx.Parser.Lex
 import Mitx.Parser.Reject
 import Mitx.Parser.LexReject
 import Mitx.Parser.Fuel
+import Mitx.Generated.Grammar
+import Mitx.Model.GrammarSpec
 /-! # C03 — formula strings evaluate to the value mathematics assigns them
 
 Property theorems only. Model: token-level PEG parser `Mitx/Parser/Syntax.lean`, lexer `Mitx/Parser/Lex.lean`,
@@ -139,5 +141,15 @@ theorem evalSum_snoc {V : Type} (A : Alg V) (acc : V) (l : List (Bool × V)) (s 
 /-- unary minus negates, parentheses are transparent -/
 theorem evalNegation {V : Type} (A : Alg V) (t : T) : evalT A (.neg t) = A.neg (evalT A t) := by simp [evalT]
 theorem evalParen {V : Type} (A : Alg V) (t : T) : evalT A (.paren t) = evalT A t := by simp [evalT]
+
+
+/-! ## the grammar the model stands for is the grammar the code builds -/
+
+/-- **Generated obligation.** The pyparsing object graph of `MathParser().grammar`, regenerated from the live code on every run
+    (`harness/translate/grammar.py` → `Mitx/Generated/Grammar.lean`: every element with its class, result name, parse actions,
+    literals and character classes), equals the reviewed description of the grammar that the Lean lexer and parser model. Any edit
+    of the grammar — an operator literal, a character class, `Optional` ↔ `ZeroOrMore`, the order of precedence levels or of
+    alternatives, a parse action moved to another element — changes the left-hand side and breaks this theorem. -/
+theorem grammar_matches : Gen.grammar = GrammarSpec.expected := by decide +kernel
 
 end C03
